@@ -17,8 +17,8 @@ func TestC02(t *testing.T) {
 	rnd := vt.Rand()
 	gen := func(yield func(vt.Case)) {
 		for i, c := range allTLCCases(t) {
-			cc := fromTLC(c, counterFuncs[i%4], "xor")
-			cc["drift"] = i%vt.Pick(3, 8) == 0
+			cc := vt.Normalize(fromTLC(c, counterFuncs[i%4], "xor"))
+			cc["drift"] = i%vt.Pick(5, 8) == 0
 			cc["scripts"] = scripts(rnd, readReps(cc["reps"]), 2)
 			yield(cc)
 		}
